@@ -1,11 +1,16 @@
 #!/bin/bash
-# usage: try_patch.sh <patch.diff> <prop> [prop...] — apply to /repo, run quick checks, always undo.
+# usage: try_patch.sh <patch.diff> <prop> [prop...] — apply to /repo, run quick checks (8 at a time), always undo.
 P="$1"; shift
 cd /repo || exit 2
 if [ -n "$(git status --porcelain)" ]; then echo "repo dirty, refusing"; exit 2; fi
 git apply "$P" || { echo "patch does not apply"; exit 2; }
-trap 'git -C /repo checkout -- . ; git -C /repo status --short' EXIT
+trap 'git -C /repo checkout -- . ; git -C /repo clean -fdq -- . 2>/dev/null; git -C /repo status --short' EXIT
 cd /verif
-for id in "$@"; do
-  ./bin/zcheck -property $id -tier quick 2>&1 | grep -v "^WARNING" | cut -c1-700
-done
+if [ $# -le 2 ]; then
+  for id in "$@"; do ./bin/zcheck -property $id -tier quick 2>&1 | grep -v "^WARNING" | cut -c1-700; done
+else
+  T=$(mktemp -d)
+  printf "%s\n" "$@" | xargs -P 8 -I{} sh -c "./bin/zcheck -property {} -tier quick > $T/{}.out 2>&1" 2>/dev/null
+  for id in "$@"; do grep -v "^WARNING" $T/$id.out | cut -c1-700; done
+  rm -rf $T
+fi
